@@ -67,4 +67,4 @@ def run(ctx):
     def chk(case):
         _check(case, ctx)
 
-    ctx.run_hypothesis(gfi_hist.st_history(CFG, kinds=TOP, nops=(1, 3)), chk, ctx.pick(8, 8), salt="main")
+    ctx.run_hypothesis(gfi_hist.st_history(CFG, kinds=TOP, nops=(1, 3)), chk, ctx.pick(6, 6), salt="main")
